@@ -68,7 +68,8 @@ def streams(tier, rng, fs, profile):
     # power-of-two moderate path: the invalid marker `power2 + INVALID_FP` at exponents beyond 32768
     comp, api = gens_algos.marker_overflow_ops(rng, fs, tier)
     out += [("g-marker", api), ("comp-bin-marker", comp)]
-    return out
+    # pipe-*: the API streams against the algorithmic pipeline model (every radix, mixed bases, slow_binary dispatch)
+    return out + gens_algos.apf_streams(out)
 
 
 def nontrivial(op, res):
